@@ -330,8 +330,14 @@ def dwt_shapes_check(ctx, ss, sizes):
 IMPORTS = ["Base.PyZ", "Gen.StateRec", "Gen.SliceSizes", "Corr.C13"]
 
 
+_REPORTED = {}
+
+
 def report(ctx, t, viols, extra=None):
     for (key, desc, observed, expected) in viols:
+        _REPORTED[key] = _REPORTED.get(key, 0) + 1
+        if _REPORTED[key] > 25:  # one failure class floods quickly: keep the first few inputs of each
+            continue
         inp = {"state": list(t)}
         if extra:
             inp.update(extra)
@@ -341,6 +347,7 @@ def report(ctx, t, viols, extra=None):
 def run(ctx):
     ss = impl()
     rng = ctx.rng
+    _REPORTED.clear()
     ctx.extra["rule"] = (
         "box: states (w,h,dwt_depth,dwt_depth_ho,slices_x,slices_y) in 1..24^2 x 0..3^2 x 1..8^2 (quick: random 1/16; thorough: all), "
         "all eight functions on every component, level 0..dh+d+1 and slice index, compared with Gen/SliceSizes.v by checksum "
@@ -372,8 +379,8 @@ def run(ctx):
         ctx.exhaustive = True
     box = [g + (nx, ny) for g in groups for nx in range(1, NMAX + 1) for ny in range(1, NMAX + 1)]
     # edge states of the property's domain: zero sizes, many more slices than coefficients
-    edge = [(w, h, cw, ch, d, dh, nx, ny, 3, 2) for w in (0, 1, 2) for h in (0, 1, 3) for (cw, ch) in ((0, 0), (1, 2))
-            for d in (0, 1, 2) for dh in (0, 1, 2) for (nx, ny) in ((1, 1), (3, 2), (9, 7))]
+    edge = [(w, h, cw, ch, d, dh, nx, ny, 3, 2) for w in (0, 1, 2) for h in (0, 3) for (cw, ch) in ((0, 0), (1, 2))
+            for d in (0, 2) for dh in (0, 1) for (nx, ny) in ((1, 1), (3, 2), (9, 7))]
     corpus = [t for t in corpus if is_good(t) and t[6] * t[7] <= 4096 and t[4] + t[5] <= 12]
     extra_states = corpus + edge
     states = extra_states + [box_state(*b) for b in box]
@@ -396,7 +403,7 @@ def run(ctx):
     for gi in (gbad or [])[:6]:
         sub.extend(range(len(extra_states) + gi * per, len(extra_states) + (gi + 1) * per))
     cases = ["(%s, %s)" % (cstate(states[i]), cz(results[i][0] if results[i][0] is not None else -1)) for i in sub]
-    bad = ctx.coq_check_cases("states", IMPORTS, "chk_hash", cases, shard=60, timeout=1500)
+    bad = ctx.coq_check_cases("states", IMPORTS, "chk_hash", cases, shard=48, timeout=1500)
     bad = [sub[i] for i in (bad or [])]
     relook = [states[i] for i in bad][:12]
     if gbad:
@@ -405,7 +412,7 @@ def run(ctx):
                            len(gbad), [groups[i] for i in gbad[:5]], [list(t) for t in relook[:3]]))
 
     # ---- full (value by value) ------------------------------------------------------------------
-    nfull = ctx.pick(48, 600)
+    nfull = ctx.pick(32, 600)
     full_states = list(relook)
     for _ in range(nfull):
         full_states.append((rng.randrange(0, 41), rng.randrange(0, 41), rng.randrange(0, 41), rng.randrange(0, 41),
@@ -430,7 +437,7 @@ def run(ctx):
                        "model/implementation differ (%d corpus/edge/box states, %d full states), e.g. %r" % (len(bad or []), len(fbad or []), which))
 
     # ---- point cases: big values and malformed inputs ---------------------------------------------------
-    npoint = ctx.pick(1500, 20000)
+    npoint = ctx.pick(900, 20000)
     pcases, pmeta = [], []
 
     def big():
